@@ -28,10 +28,10 @@ RULE = (
 )
 ASSUMPTIONS = ["the clock is the real one or freezegun's; no concurrent second writer on the same history"]
 BUDGET = {"quick": (220, 4), "thorough": (24000, 16)}
-REQUIRED = ["gens>=3", "failed_run", "same_second", "nested", "sf"]
+REQUIRED = ["gens>=3", "failed_run", "same_second", "nested", "sf", "empty_root_sealed"]
 
 CFG = {
-    "kinds": ["create"] * 6 + ["create_sf"] * 2 + ["put_new", "overwrite", "overwrite", "rm", "rm", "rmtree", "mkdir", "mv"],
+    "kinds": ["create"] * 6 + ["create_sf"] * 2 + ["put_new", "overwrite", "overwrite", "rm", "rm", "rmtree", "mkdir", "mv", "rmfiles"],
     "min_steps": 2,
     "max_steps": 12,
     "final": ["create"],
@@ -58,9 +58,14 @@ def group_by_history(asc):
     return out
 
 
-def observe(w, before, after, res, t0, t1, frozen, ctx, stats):
+def observe(w, before, after, res, t0, t1, frozen, ctx, stats, invoked=None):
     b = group_by_history(before)
     a = group_by_history(after)
+    if invoked is not None and res.exc is None and res.exit_code in (0, 10, 11):
+        # folder mode: the history of the invoked root always receives the new generation (even if the folder is empty)
+        require(a.get(invoked) != b.get(invoked), "root-generation", "create on %r (%s) wrote no generation for it" % (invoked, res.brief()), res)
+        if not w.media_files(invoked):
+            ctx.event("empty_root_sealed")
     for h, files in b.items():
         require(h in a, "append-only", "ascmhl folder of %r vanished (%s)" % (h, res.brief()), res)
         for fn, data in files.items():
@@ -124,7 +129,7 @@ def run_case(scn, ctx):
                 res = hist.apply_step(w, scn, step, frozen=scn.get("frozen"))
                 t1 = time.time()
                 after = w.asc_files()
-                observe(w, before, after, res, t0, t1, scn.get("frozen"), ctx, stats)
+                observe(w, before, after, res, t0, t1, scn.get("frozen"), ctx, stats, invoked=hist.wpath(scn, step["root"]) if step["op"] == "create" else None)
                 failed_run |= res.exit_code in (10, 11)
                 sf |= step["op"] == "create_sf"
             else:
